@@ -550,16 +550,27 @@ fn build_function(function: &Function) -> Result<proc_macro2::TokenStream, anyho
         })
         .transpose()?;
 
+    // the local that holds the callee must not shadow an argument of the same name
+    let mut callee_name = String::from("f");
+    while function
+        .arguments
+        .iter()
+        .any(|a| matches!(a, Argument::Field(name, _) if *name == callee_name))
+    {
+        callee_name.push('_');
+    }
+    let callee = str_to_ident(&callee_name);
+
     let calling_convention = function.calling_convention.as_str();
     let function_body = match &function.body {
         FunctionBody::Address { address } => {
             let address = hex_literal(*address);
             quote! {
-                let f:
+                let #callee:
                     unsafe extern #calling_convention
                     fn(#(#lambda_arguments),*) #return_type
                 = ::std::mem::transmute(#address as usize);
-                f(#(#call_arguments),*)
+                #callee(#(#call_arguments),*)
             }
         }
         FunctionBody::Field {
@@ -575,8 +586,8 @@ fn build_function(function: &Function) -> Result<proc_macro2::TokenStream, anyho
         FunctionBody::Vftable { function_name } => {
             let function_to_call_name = str_to_ident(function_name);
             quote! {
-                let f = std::ptr::addr_of!((*self.vftable()).#function_to_call_name).read();
-                f(#(#call_arguments),*)
+                let #callee = std::ptr::addr_of!((*self.vftable()).#function_to_call_name).read();
+                #callee(#(#call_arguments),*)
             }
         }
     };
